@@ -28,14 +28,17 @@ RECURSIVE PathStr(_)
 PathStr(cs) == IF cs = << >> THEN "" ELSE "/" \o Head(cs) \o PathStr(Tail(cs))
 Str(cs) == IF cs = << >> THEN "/" ELSE PathStr(cs)
 
-(* A declaration: [name, wd, ins, outs] with ins/outs sets of spellings.   *)
-(* The induced workflow identifies files by the string of their normal form *)
+(* A declaration: [name, wd, ins, outs] with ins/outs sets of spellings and wd itself a    *)
+(* spelling: a relative working directory is resolved against the directory the process   *)
+(* runs in (Cwd).  The induced workflow identifies files by the string of their normal form *)
+Cwd == <<"P">>
+ActualWd(wd) == Norm(Cwd, wd)
 Induced(decls) ==
   LET T == {d.name : d \in decls}
       D(t) == CHOOSE d \in decls : d.name = t IN
   [T |-> T,
-   in  |-> [t \in T |-> {Str(Norm(D(t).wd, p)) : p \in D(t).ins}],
-   out |-> [t \in T |-> {Str(Norm(D(t).wd, p)) : p \in D(t).outs}]]
+   in  |-> [t \in T |-> {Str(Norm(ActualWd(D(t).wd), p)) : p \in D(t).ins}],
+   out |-> [t \in T |-> {Str(Norm(ActualWd(D(t).wd), p)) : p \in D(t).outs}]]
 
 (* C19: the directory relative paths are resolved against.                 *)
 (*   explicit  - working directory given for the target/template ("none"   *)
